@@ -151,11 +151,11 @@ def depth(tier):
 
 def s2_tasks(tier):
     from mc.props import c03, c08
-    ts = [dict(t, kind='c03') for t in c03.s2_tasks(tier)]
-    ts += [dict(t, kind='c08') for t in c08.s2_tasks(tier)]
+    ts = [dict(t, src='c03') for t in c03.s2_tasks(tier)]
+    ts += [dict(t, src='c08') for t in c08.s2_tasks(tier)]
     edge = progs.edge_instructions(tier)
     n = (len(edge) + 255) // 256
-    ts += [dict(kind='edge', lo=i * 256, hi=(i + 1) * 256) for i in range(n)]
+    ts += [dict(src='edge', lo=i * 256, hi=(i + 1) * 256) for i in range(n)]
     return ts
 
 
@@ -164,9 +164,9 @@ _EDGE = {}
 
 def s2_programs(task):
     from mc.props import c03, c08
-    if task['kind'] == 'c03':
+    if task['src'] == 'c03':
         yield from c03.s2_programs(task)
-    elif task['kind'] == 'c08':
+    elif task['src'] == 'c08':
         yield from c08.s2_programs(task)
     else:
         if task['tier'] not in _EDGE:
